@@ -1,6 +1,9 @@
 """Per-shard recorder of what the monitors saw."""
 import collections
 
+# engine simW instances of the case being run (set by vf.scen)
+WSIMS = []
+
 
 class Rec:
     MAXV = 40
@@ -27,6 +30,22 @@ class Rec:
             self.samples.append(s)
 
     def viol(self, key, msg, case=None):
+        # known finding K15 is decided on the state of the real
+        # simple_websocket driver (engine simW), whatever oracle noticed its
+        # consequence: a connection the library has closed, whose reader
+        # thread has ended, with the handler thread still asleep in receive()
+        try:
+            for sim in WSIMS:
+                lw = sim.lost_wakeup_conns()
+                if lw:
+                    msg = '%s [real simple_websocket driver: %d handler ' \
+                        'thread(s) asleep in receive() on connections the ' \
+                        'library has closed; first reported as %s]' % (
+                            msg, len(lw), key)
+                    key = 'simple-websocket-lost-wakeup'
+                    break
+        except Exception:
+            pass
         self.nviolations += 1
         self._vkeys[key] += 1
         if self._vkeys[key] <= 3 and len(self.violations) < self.MAXV:
